@@ -26,7 +26,9 @@ var qcKinds = []string{"QC", "QCPerNode", "QCCustom", "QCCombo", "Async", "Async
 // QCKinds are the quorum-call and async kinds.
 func QCKinds() []string { return append([]string(nil), qcKinds...) }
 
-var errMsgs = []string{"boom", "", "no such key", "déjà vu ☃", "line1\nline2", "node 7: fake", "a very long message that goes on and on and on and on and on and on and on and on"}
+var errMsgs = []string{"boom", "", "no such key", "déjà vu ☃", "line1\nline2", "node 7: fake", "a very long message that goes on and on and on and on and on and on and on and on",
+	// texts that only survive if nobody uses them as a format string
+	"disk 100% full", "quota at 95%, refusing", "%s %d %v %!s(MISSING) %%", "ends with %"}
 
 // GenMgr draws manager options that do not change the semantics under test.
 func GenMgr(t *rapid.T, allowBlock bool) scen.MgrOpts {
